@@ -109,18 +109,17 @@ def engine_classes():
             return success, status
 
     class ReversibleEngine(ScriptedEngine):
-        """exact integer position-Verlet in the double well V = (x²-a)²/4·k: time-reversible on ℤ²"""
+        """exact integer position-Verlet in a double well (force -x(x²-a)/k truncated, clamped to ±8):
+        x½ = x+v; v' = v+F(x½); x' = x½+v'  — time-reversible on ℤ² without rounding"""
 
-        def __init__(self, eid, fs, log, exe_dir, a, nsteps):
+        def __init__(self, eid, fs, log, exe_dir, a, k, nsteps):
             super().__init__(eid, fs, log, [], exe_dir)
             self.a = a
+            self.k = k
             self.nsteps = nsteps
 
         def step(self, c):
-            x, v = c
-            xh = x + v
-            v2 = v + (-(xh * (xh * xh - self.a)))
-            return (xh + v2, v2)
+            return dw_step(self.a, self.k, c)
 
         def next_script(self, init, reverse, maxlen):
             rest = []
@@ -132,6 +131,20 @@ def engine_classes():
 
     _ENGINE_CLASSES.update(S=ScriptedEngine, R=ReversibleEngine)
     return _ENGINE_CLASSES
+
+
+def dw_force(a, k, x):
+    q = x * (x * x - a)
+    t = abs(q) // k
+    f = -t if q > 0 else t
+    return max(-8, min(8, f))
+
+
+def dw_step(a, k, c):
+    x, v = c
+    xh = x + v
+    v2 = v + dw_force(a, k, xh)
+    return (xh + v2, v2)
 
 
 def tok_num(x):
@@ -204,7 +217,7 @@ def case_line(c, p=Fraction(1)):
     if c["kind"] == "retis":
         return f"{head} {script_tok(c['scripts'][0])} {script_tok(c['scripts'][1])} {frac_token(c['xi'])}"
     if c["kind"] == "retisdet":
-        return (f"retisdet {c['a']} {c['n']} {ens_tok(c['e0'])} {ens_tok(c['e1'])} {lst(c['old0'], frame_tok)} "
+        return (f"retisdet {c['a']} {c['k']} {c['n']} {ens_tok(c['e0'])} {ens_tok(c['e1'])} {lst(c['old0'], frame_tok)} "
                 f"{lst(c['old1'], frame_tok)} {frac_token(c['xi'])}")
     return (f"{head} {' '.join(script_tok(s) for s in c['scripts'])} {int(c['aa'])} "
             f"{frac_token(c['beta0'])} {frac_token(c['beta1'])} {frac_token(c['xi'])} {frac_token(p)}")
@@ -290,8 +303,8 @@ class World:
         log = []
         d = self.dirs[dirk]
         if c["kind"] == "retisdet":
-            eng0 = E["R"](0, fs, log, d, c["a"], c["n"])
-            eng1 = E["R"](1, fs, log, d, c["a"], c["n"])
+            eng0 = E["R"](0, fs, log, d, c["a"], c["k"], c["n"])
+            eng1 = E["R"](1, fs, log, d, c["a"], c["k"], c["n"])
         elif c["kind"] == "retis":
             eng0 = E["S"](0, fs, log, [c["scripts"][0]], d)
             eng1 = E["S"](1, fs, log, [c["scripts"][1]], d)
@@ -564,54 +577,55 @@ def xi_grid(p):
 def traj_from(step, c0, n):
     out = [c0]
     for _ in range(n):
-        out.append(step(out[-1]))
+        c = step(out[-1])
+        if abs(c[0]) > 45 or abs(c[1]) > 45:
+            break
+        out.append(c)
     return out
 
 
 def det_cases(ctx):
-    """old path pairs that are trajectories of the integer leap-frog engine, found by search"""
+    """old path pairs that are trajectories of the integer leap-frog engine, found by seeded search"""
     rng = ctx.rng
-    E = engine_classes()
     cases = []
-    want = 150 if ctx.quick else 2500
+    want = 400 if ctx.quick else 6000
     tries = 0
-    while len(cases) < want and tries < 400000:
+    while len(cases) < want and tries < 200 * want:
         tries += 1
-        a = rng.choice((4, 9, 16, 25))
-        eng = E["R"](0, {}, [], ".", a, 0)
-        lam0 = rng.randint(-5, 1)
-        lamN = lam0 + rng.randint(1, 6)
+        a = rng.choice((36, 64, 100))
+        k = rng.choice((16, 32, 64, 128))
+        step = lambda c: dw_step(a, k, c)  # noqa: E731
+        lam0 = -int(a ** 0.5) + rng.randint(0, 4)
+        lamN = lam0 + rng.randint(1, 8)
         lm1 = rng.random() < 0.4
-        lamm = lam0 - rng.randint(1, 4)
-        # a [0-] trajectory: start right of λ0 moving left, until it is right of λ0 again (or left of λ₋₁)
-        c = (lam0 + rng.randint(1, 2), -rng.randint(0, 3))
-        tr0 = traj_from(eng.step, c, 12)
-        k0 = next((k for k in range(1, 13) if tr0[k][0] > lam0 or (lm1 and tr0[k][0] < lamm)), None)
+        lamm = lam0 - rng.randint(2, 6)
+        lo = lamm if lm1 else -10**9
+        # a [0-] trajectory: starts right of λ0 (or left of λ₋₁) and runs until it is right of λ0 again
+        if lm1 and rng.random() < 0.4:
+            c = (lamm - rng.randint(1, 2), rng.randint(0, 4))
+        else:
+            c = (lam0 + rng.randint(1, 3), -rng.randint(0, 4))
+        tr0 = traj_from(step, c, 14)
+        k0 = next((j for j in range(1, len(tr0)) if tr0[j][0] > lam0 or tr0[j][0] < lo), None)
         if k0 is None or k0 < 2 or tr0[k0][0] <= lam0:
             continue
         tr0 = tr0[: k0 + 1]
-        c = (lam0 - rng.randint(0, 2), rng.randint(0, 3))
-        tr1 = traj_from(eng.step, c, 12)
-        k1 = next((k for k in range(1, 13) if tr1[k][0] < lam0 or tr1[k][0] > lamN), None)
+        c = (lam0 - rng.randint(0, 3), rng.randint(0, 4))
+        tr1 = traj_from(step, c, 14)
+        k1 = next((j for j in range(1, len(tr1)) if tr1[j][0] < lam0 or tr1[j][0] > lamN), None)
         if k1 is None or k1 < 2:
             continue
         tr1 = tr1[: k1 + 1]
-        if not all(lam0 <= x[0] <= lamN for x in tr1[1:-1]) or not tr1[0][0] <= lam0:
-            continue
-        if not all((lamm if lm1 else -10**9) <= x[0] <= lam0 for x in tr0[1:-1]):
-            continue
-        if max(abs(x[0]) for x in tr0 + tr1) > 40:
-            continue
-        m = max(len(tr0), len(tr1)) + rng.choice((1, 1, 2, 5, 30))
-        # stored with random vel_rev flags: content = phys with v negated iff flagged
+        m = max(len(tr0), len(tr1)) + rng.choice((1, 1, 2, 5, 12))
+
         def store(tr):
             out = []
             for (x, v) in tr:
                 vr = rng.random() < 0.4
                 out.append((x, (x, -v if vr else v), vr, 0))
             return out
-        i0 = (lamm, lamm + 1 if lamm + 1 < lam0 else lamm, lam0) if lm1 else (NEG, lam0, lam0)
-        cases.append({"kind": "retisdet", "tag": "reversible-" + ("lm1" if lm1 else "plain"), "a": a, "n": m + 2,
+        i0 = (lamm, lamm + 1, lam0) if lm1 else (NEG, lam0, lam0)
+        cases.append({"kind": "retisdet", "tag": "reversible-" + ("lm1" if lm1 else "plain"), "a": a, "k": k, "n": m + 2,
                       "e0": ens(i0, m, (True, True) if lm1 else (False, True)),
                       "e1": ens((lam0, lam0, lamN), m, (True, False)),
                       "old0": store(tr0), "old1": store(tr1), "xi": Fraction(1, 2)})
